@@ -75,8 +75,10 @@ def runHt : P Verdict := do
     check sameLpf "additional half tone changed the low-pass trajectory",
     check (h != 0.0 || sameLf0) "h = 0 is not the identity on log-F0",
     check (clampActive || (l0.zip lh).all fun (a, b) => a == nodata || a.isNaN || closeF 1e-6 1.0 (b - a) delta)
-      s!"log-F0 of a voiced frame did not move by h·ln2/12 = {delta} (h = {h})",
-    check ((lh.all fun b => b == nodata || b.isNaN || (b ≤ maxLf0 + 1.0 && b ≥ minLf0 - 1.0)) || !clampActive) "clamped log-F0 far outside the limits" ]
+      s!"log-F0 of a voiced frame did not move by h·ln2/12 = {delta} (h = {h})" ]
+  -- (removed: "clamped log-F0 far outside the limits". The limit of C15 is on the shifted state means; the generated
+  --  trajectory — dynamic features, GV at weights up to 2 — may overshoot it by more than the margin this clause allowed,
+  --  and the property does not bound it. It fired on the unchanged code in the thorough tier: a false alarm of the oracle.)
   let voiced := (l0.filter (· != nodata)).length
   pure { corr, oracle := orc, nontriv := h != 0.0 && voiced ≥ 1,
          cls := s!"{kind}:{if h == 0.0 then "zero" else if clampActive then "clamped" else if h > 0.0 then "up" else "down"}" }
